@@ -130,4 +130,4 @@ for c in req.get("cases", []):
         row["status"] = "error:" + type(e).__name__
         row["message"] = str(e)[:400]
     rows.append(row)
-print(json.dumps({"cases": rows, "ext_mode": mode}))
+print(json.dumps({"cases": rows, "ext_mode": mode}, default=__import__("_util").jdefault))
